@@ -676,6 +676,11 @@ def rt_cases(prop):
                       J('q1', duration=5), J('q2', duration=5), J('s1')], [(5, 1)], window=3),
             S('top', [S('in', [J('c', critical=True, outcome='raise'), J('n', outcome='raise', yields=1),
                                J('l', duration=5), J('s1')], [(3, 1)], critical=True), J('o', duration=4)]),
+            # a nested scheduler cancelled by its parent while it clears the exceptions of a batch (gather)
+            S('top', [S('in', [J('a', outcome='raise', yields=5, cancel_delay=0.25), J('b', duration=5, cancel_delay=0.25)]),
+                      J('k', critical=True, outcome='raise', yields=4)]),
+            S('top', [S('in', [J('a', outcome='raise', yields=5), J('b', duration=5, cancel_delay=0.25)]),
+                      J('k', critical=True, outcome='raise', yields=5)]),
             # redundant edges: a requires nothing; m requires a; l requires a and m
             S('top', [J('a'), J('m', duration=2), J('l')], [(1, 0), (2, 0), (2, 1)]),
             S('top', [J('a'), J('b'), J('m', duration=2), J('l')], [(2, 0), (3, 1), (3, 2)]),
